@@ -71,4 +71,24 @@ def run(ctx):
                                  "NoScryptoFreeExport": "legacy ABI: scrypto_free is no longer a required export (host-managed buffers)"})
     for e in ("InvalidImport", "InvalidMemory", "InvalidTable"):
         check_variants_live(ctx, e, W + "errors::" + e, SC, conditional=False, dead_ok={})
+    ctx.rule("T2/T9: the MemoryNotExported rejection in enforce_memory_limit_and_inject_max is decided by a predicate over the export section that "
+             "tests BOTH the export's kind (ExternalKind::Memory) and its name (EXPORT_MEMORY) — a name-only test lets a function or global "
+             "called \"memory\" through, and instantiation then finds no memory export")
+    n = W + "prepare::WasmModule::enforce_memory_limit_and_inject_max"
+    if ctx.anchor(n):
+        bs = ctx.bodies_of(n)
+        b = ctx.body(n)
+        sites = [x for x in agg_blocks(b, r"::InvalidMemory$", "MemoryNotExported")]
+        ctx.ob("memory-export|rejection-doomed", bool(sites) and all(doomed(b, s_) for s_ in sites), f"{len(sites)} MemoryNotExported site(s), all doomed", b.loc())
+        kind_test, name_test = [], []
+        for x in bs:
+            k = bool(x.calls(r"PartialEq<[^>]*ExternalKind>>::eq$|ExternalKind as core::cmp::PartialEq>::eq$|ExternalKind>>::eq$")) or \
+                any("Memory" in ed for _, ed, _, _ in x.enum_guards(r"::ExternalKind$")) or any(v.endswith("ExternalKind::Memory") for v in x.fn.vars)
+            nm = any(c.endswith("::EXPORT_MEMORY") for c in x.fn.consts) and bool(x.calls(r"PartialEq(<[^>]*>)?>::eq$|::eq$|::contains$"))
+            if k:
+                kind_test.append(x.name.rsplit("::", 1)[1])
+            if nm:
+                name_test.append(x.name.rsplit("::", 1)[1])
+        ctx.ob("memory-export|predicate-tests-kind", bool(kind_test), f"export kind compared with ExternalKind::Memory in {kind_test}", b.loc())
+        ctx.ob("memory-export|predicate-tests-name", bool(name_test), f"export name compared with EXPORT_MEMORY in {name_test}", b.loc())
     ctx.assume("that each step's predicate is the right one for every module, and semantic preservation of instrumentation (C46), are not decided")
